@@ -154,4 +154,46 @@ theorem maxWithdrawWith_ok {c : Cell} {dataCap dn da wn wa w : Nat} :
     · rintro ⟨_, occ, ho, h1, h2, h3, rfl⟩
       exact ⟨occ, ho, _, ⟨h1, rfl⟩, _, ⟨h2, rfl⟩, h3, rfl⟩
 
+
+/-! ### the rule iterated along a chain (spec-level helper for the accounting theorems) -/
+
+/-- the per-block inputs of the rule -/
+structure BlockTotals where
+  primary : Nat
+  g2 : Nat
+  added : Nat
+  freed : Nat
+  interests : Nat
+deriving Repr
+
+/-- the header fields of a chain segment: each block's field is the rule applied to its parent's -/
+def daoChain (p : DaoField) : List BlockTotals → R DaoField
+  | [] => pure p
+  | b :: bs => do
+    let d ← daoUpdate p b.primary b.g2 b.added b.freed b.interests
+    daoChain d bs
+
+def sumOf (f : BlockTotals → Nat) : List BlockTotals → Nat
+  | [] => 0
+  | b :: bs => f b + sumOf f bs
+
+theorem daoChain_ok {p d : DaoField} {bs : List BlockTotals} (h : daoChain p bs = .ok d) :
+    d.c = p.c + sumOf (fun b => b.primary + b.g2) bs ∧
+    d.u + sumOf (·.freed) bs = p.u + sumOf (·.added) bs ∧
+    p.ar ≤ d.ar ∧
+    d.s + sumOf (·.interests) bs ≤ p.s + sumOf (·.g2) bs := by
+  induction bs generalizing p with
+  | nil =>
+    simp only [daoChain, pure_ok] at h
+    subst h; simp [sumOf]
+  | cons b bs ih =>
+    simp only [daoChain, bind_ok] at h
+    obtain ⟨d1, h1, h2⟩ := h
+    obtain ⟨i1, i2, i3, i4⟩ := ih h2
+    obtain ⟨h0, _, hm, _, _, _, _, _, _, _, _, rfl⟩ := daoUpdate_ok.1 h1
+    simp only [sumOf] at *
+    generalize b.g2 * p.u / p.c = m at *
+    generalize p.ar * b.g2 / p.c = inc at *
+    refine ⟨by omega, by omega, by omega, by omega⟩
+
 end CkbVerif.Dao
